@@ -1,25 +1,23 @@
 import NitroVerif.Spec.Valid
 /-!
-# Spec §3.5.1 (Int, input coercion) inside rule 5.6.1 — the 32-bit range of Int literals
+# Spec §3.5.1 (Int, input coercion) inside rule 5.6.1 — the 32-bit range of Int literals, as a statement of its own
 
-`Valid.leafCoercible` accepts every integer literal where `Int` is expected. The specification does not: "If the integer
-input value represents a value less than -2^31 or greater than or equal to 2^31, a request error should be raised"
-(§3.5.1 Input Coercion), and 5.6.1 (Values of Correct Type) asks literals to be coercible by those rules (the reference
-implementation's `GraphQLInt.parseLiteral` rejects such a literal during validation). `Float` and `ID` accept any integer
-literal (§3.5.2, §3.5.5).
+"If the integer input value represents a value less than -2^31 or greater than or equal to 2^31, a request error should be
+raised" (§3.5.1 Input Coercion); 5.6.1 (Values of Correct Type) asks literals to be coercible by those rules. `Float` and
+`ID` accept any integer literal (§3.5.2, §3.5.5).
 
-This is a SEPARATE, additional predicate (`rule_int32`, id `5.6.1-int32`): the definitions of `Spec/Valid.lean`, on which the
-C03 / C04 theorems are stated, are unchanged. The driver `nv_c03` reports the id beside the ids of the rule tables.
-Neither the model `CheckOp` nor (at the time of writing) the real checker enforces it — see known-findings.txt.
+History: until fix e3584a3 of the checker `Valid.leafCoercible` accepted every integer literal where `Int` is expected and
+this file carried the range as a SEPARATE predicate (id `5.6.1-int32`, an open finding of the real checker). Now
+`Valid.leafCoercible` itself requires the range (`SpecInt.intTextInRange`, Spec/IntLit.lean), so the range is part of
+`rule_5_6_1` / `SpecValid`. `rule_int32` stays as the direct, traversal-style statement of "every Int literal at an Int
+position is a 32-bit value"; `Lemmas/IntRange.lean` proves `rule_5_6_1 S D = true → rule_int32 S D = true`, and
+`Props/C03.lean` states `C03_int_literals_in_range` with it.
 -/
 namespace NitroVerif.Valid
 open NitroVerif NitroVerif.Gql
 
 /-- the text of an integer literal (`-?(0|[1-9][0-9]*)`) denotes a value in `[-2^31, 2^31)` -/
-def intTextInRange (s : String) : Bool :=
-  match s.toInt? with
-  | some i => decide (-2147483648 ≤ i) && decide (i ≤ 2147483647)
-  | none => false
+abbrev intTextInRange (s : String) : Bool := SpecInt.intTextInRange s
 
 mutual
 /-- no integer literal stands at a position whose innermost named type is `Int` unless it is a 32-bit value; lists
